@@ -21,8 +21,8 @@ closed edges — no further exception (`triangle_defined_off_edges`; the earlier
 tube alongside an edge, which contains the open edge (`triangle_on_edge_branch_iff`, `triangle_on_open_edge_branch`);
 a triangle without area returns 0 for every observer (`triangle_zero_area`).
 Polyline: the two masks cover the singular set of the segment kernel (`polyline_masks_cover_singular`).
-/- FULL: all classes, IEEE double, termination of the el3 iterations and of the vectorised `celv`
-   (per entry the `cel0` loop run at least once, no `kc == 0` guard; not modelled).  Not representable in
+/- FULL: all classes, IEEE double, termination of the el3 iterations (not modelled; the vectorised `celv` — per
+   entry the `cel0` loop run at least once, no `kc == 0` guard — IS modelled: `celv_terminates`, `celv_loops_at_zero`).  Not representable in
    exact real arithmetic: overflow/underflow (r**5 for r < 1e-65, sizes 1e9), NaN from inf−inf,
    float non-termination of `while |g−qc| >= qc·1e-8`.  The special-set oracle evaluates the real
    code at every boundary set ±1,2,4 ulp, denormal offsets, zero-size/zero-excitation sources and
@@ -32,6 +32,7 @@ import MagpyVerif.Lemmas.KernReal
 import MagpyVerif.Lemmas.KernelLiterals
 import MagpyVerif.Lemmas.SegmentBS
 import MagpyVerif.Lemmas.CelAGM
+import MagpyVerif.Lemmas.Celv
 import MagpyVerif.Lemmas.KernCylinder
 import MagpyVerif.Lemmas.KernDefined
 import MagpyVerif.Lemmas.KernCylSegDisp
@@ -293,6 +294,96 @@ example : cel0 5 (0 : ℝ) 1 1 1 = none := (cel0_none_iff 0 1 1 1 5 (by simp [ce
 theorem cel0_fuel_irrelevant (n k : ℕ) (kc p c s v : ℝ) (h : cel0 n kc p c s = some v) :
     cel0 (n + k) kc p c s = some v :=
   cel0_fuel_mono n k kc p c s v h
+
+/-! ### the vectorised `celv` and the dispatcher `cel` (Model/Celv.lean) -/
+
+/-- `celv(kc, p, c, s)` on a batch (masked loop, body before the first test, no `kc == 0` guard): if every entry has
+`kc ≠ 0` (the termination hypothesis of `cel0_terminates`; no condition on `p`, `c`, `s`, on the length or on the order
+of the batch) the `while np.any(mask)` loop ends after at most `celvFuel batch` passes — the LARGEST of the entries'
+`cel0` bounds `celFuel1 |kc| 1e-6 = ⌈log₂(⌈D·1e6⌉ + 1)⌉ + 1`, `D = |1 − |kc|| / min(1, |kc|)`: an entry stops when its
+own test fails and is not touched while the others go on -/
+theorem celv_terminates (batch : List (CelArg ℝ)) (hkc : ∀ x ∈ batch, x.kc ≠ 0) (fuel : ℕ)
+    (hfuel : celvFuel batch ≤ fuel) : (celv fuel batch).isSome :=
+  celv_isSome_celvFuel batch hkc fuel hfuel
+
+example : (celv (celvFuel [⟨2, 1, 1, 1⟩, ⟨-3, -2, 1, 1⟩, ⟨2, 1, 1, 1⟩])
+    [(⟨2, 1, 1, 1⟩ : CelArg ℝ), ⟨-3, -2, 1, 1⟩, ⟨2, 1, 1, 1⟩]).isSome :=
+  celv_terminates _ (by
+    intro x hx
+    simp only [List.mem_cons, List.not_mem_nil, or_false] at hx
+    rcases hx with rfl | rfl | rfl <;> norm_num) _ le_rfl
+
+/-- the bound is the maximum of the entries' bounds: it dominates each of them and is attained (or is 0 for the
+empty batch) -/
+theorem celvFuel_is_max (batch : List (CelArg ℝ)) :
+    (∀ x ∈ batch, celFuel1 |x.kc| (1 / 1000000) ≤ celvFuel batch) ∧
+    (batch = [] ∧ celvFuel batch = 0 ∨ ∃ x ∈ batch, celvFuel batch = celFuel1 |x.kc| (1 / 1000000)) := by
+  refine ⟨fun x hx => celFuel1_le_celvFuel hx, ?_⟩
+  induction batch with
+  | nil => exact Or.inl ⟨rfl, rfl⟩
+  | cons a t ih =>
+    right
+    rcases ih with ⟨rfl, h0⟩ | ⟨x, hx, hx2⟩
+    · exact ⟨a, by simp, by simp [celvFuel]⟩
+    · rcases le_total (celFuel1 |a.kc| (1 / 1000000)) (celvFuel t) with h | h
+      · exact ⟨x, by simp [hx], by rw [← hx2]; exact max_eq_right h⟩
+      · exact ⟨a, by simp, max_eq_left h⟩
+
+/-- the value of `celv` does not depend on the fuel -/
+theorem celv_fuel_irrelevant (n k : ℕ) (batch : List (CelArg ℝ)) (vs : List ℝ) (h : celv n batch = some vs) :
+    celv (n + k) batch = some vs := by
+  rw [celv_eq_seqOpt_celv1, seqOpt_eq_some_iff] at h ⊢
+  rw [← h]
+  apply List.map_congr_left
+  intro x hx
+  have hs := isSome_of_map_eq_map_some _ _ _ h x hx
+  obtain ⟨v, hv⟩ := Option.isSome_iff_exists.mp hs
+  rw [hv]
+  unfold celv1 at hv ⊢
+  exact celvDo_fuel_mono n k _ v hv
+
+/-- the hypothesis `kc ≠ 0` of `celv_terminates` cannot be dropped, and one such entry is enough: a batch that
+contains an entry with `kc = 0` never leaves the loop, whatever the other entries are (its `k` stays 0 and its `g`
+stays 1, so `|g − k| > g·1e-6` holds after every pass) — no row of the call gets a result.  This is the known finding
+`hang-or-crash:Cylinder:denormal-height` (≥ 10 observers; for fewer `cel0` raises `RuntimeError`, `cel0_none_iff`) -/
+theorem celv_loops_at_zero (batch : List (CelArg ℝ)) (x : CelArg ℝ) (hx : x ∈ batch) (hkc : x.kc = 0) (fuel : ℕ) :
+    celv fuel batch = none := by
+  rw [celv_eq_seqOpt_celv1]
+  apply seqOpt_eq_none_of_mem
+  exact List.mem_map.mpr ⟨x, hx, celv1_none_of_kc_zero fuel x hkc⟩
+
+example : celv 1000 [(⟨2, 1, 1, 1⟩ : CelArg ℝ), ⟨0, 1, 1, 1⟩, ⟨3, 1, 1, 1⟩] = none :=
+  celv_loops_at_zero _ ⟨0, 1, 1, 1⟩ (by simp) rfl _
+
+/-- the dispatcher `cel` (list comprehension over `cel0` below 10 entries, `celv` from 10 on) returns for every batch
+all of whose entries have `kc ≠ 0`, with the same bound on either side of the threshold -/
+theorem celDispatch_terminates (batch : List (CelArg ℝ)) (hkc : ∀ x ∈ batch, x.kc ≠ 0) (fuel : ℕ)
+    (hfuel : celvFuel batch ≤ fuel) : (celDispatch fuel batch).isSome := by
+  unfold celDispatch
+  split_ifs
+  · rw [seqOpt_isSome_iff]
+    intro o ho
+    obtain ⟨x, hx, rfl⟩ := List.mem_map.mp ho
+    exact cel0_terminates x.kc x.p x.c x.s (hkc x hx) fuel (le_trans (celFuel1_le_celvFuel hx) hfuel)
+  · exact celv_terminates batch hkc fuel hfuel
+
+example : (celDispatch (celvFuel (List.replicate 12 ⟨2, 1, 1, 1⟩)) (List.replicate 12 (⟨2, 1, 1, 1⟩ : CelArg ℝ))).isSome :=
+  celDispatch_terminates _ (by
+    intro x hx
+    rw [List.eq_of_mem_replicate hx]; norm_num) _ le_rfl
+
+/-- with an entry `kc = 0` the dispatcher returns on neither side of the threshold (model `none`: `RuntimeError` of
+`cel0` below 10 entries, the endless loop of `celv` from 10 on) -/
+theorem celDispatch_none_at_zero (batch : List (CelArg ℝ)) (x : CelArg ℝ) (hx : x ∈ batch) (hkc : x.kc = 0) (fuel : ℕ) :
+    celDispatch fuel batch = none := by
+  unfold celDispatch
+  split_ifs
+  · apply seqOpt_eq_none_of_mem
+    refine List.mem_map.mpr ⟨x, hx, ?_⟩
+    unfold cel0Arg
+    rw [hkc]
+    exact cel0_eq_none_of_zero fuel x.p x.c x.s
+  · exact celv_loops_at_zero batch x hx hkc fuel
 
 /-! ### Cylinder: the near-axis branch -/
 
